@@ -651,6 +651,82 @@ def run_c12(mod, lib, case, root, canon, datadir):
         finally:
             shutil.rmtree(sd, ignore_errors=True)
 
+    # --- second generation: the *loaded* graph is written again and loaded again (same ids in the model)
+    if case.get("gen2"):
+        try:
+            objects1 = ConfigInformation.load_objects(json.loads(json.dumps(defs)), as_instance=False)
+            idmap1 = {id(o): idmap.get(k, -1) for k, o in objects1.items()}
+            root1 = objects1[defs[-1]["id"]]
+            defs2 = json.loads(root1.__json__())
+            out = {"defs": canon_defs(defs2, idmap1, canon)}
+            objects2 = ConfigInformation.load_objects(json.loads(json.dumps(defs2)), as_instance=False)
+            # ids of generation 2 are python ids of generation-1 objects
+            out["objs"] = loaded_json(objects2, defs2, idmap1, canon)
+            root2 = objects2[defs2[-1]["id"]]
+            out["id"] = root2.__xpm__.full_identifier.all.hex()
+            out["orig"] = orig_id
+            rec["lines"].append({"op": "generation2", "roots": [r]})
+            rec["impl"].append(out)
+            for k, w in compare_reloaded(rootobj, root2):
+                mon(classify_reload_diff(k), f"generation 2 (__json__ -> load -> __json__ of the loaded graph -> load): {w}", {"entry": "gen2"})
+            if out["id"] != orig_id and not compare_reloaded(rootobj, root2):
+                mon("identifier-differs", f"generation 2: structurally identical but the recomputed identifier {out['id'][:12]}… differs from {orig_id[:12]}…",
+                    {"entry": "gen2"})
+            rec["stats"]["gen2"] = True
+        except (Exception, RecursionError) as e:
+            rec["lines"].append({"op": "generation2", "roots": [r]})
+            rec["impl"].append({"err": err_kind(e)})
+            mon("reload-raises:" + err_kind(e), f"generation 2 (writing / loading a loaded graph) raised {type(e).__name__}: {str(e)[:200]}", {"entry": "gen2"})
+
+    # --- several generations through a mix of entry points (implementation only): every generation is compared with the original
+    routes = case.get("routes")
+    if routes:
+        dirs = []
+        try:
+            cur = rootobj
+            for gi, route in enumerate(routes):
+                label = f"generation {gi + 1} of {'>'.join(routes)}"
+                try:
+                    if route == "json":
+                        cur = ConfigInformation.fromParameters(json.loads(cur.__json__()), as_instance=False)
+                        new = cur
+                    elif route in ("state", "state+mix"):
+                        val = {"a": cur, "b": [rootobj, cur]} if route == "state+mix" else cur
+                        st = json.loads(json.dumps(serialization.state_dict(SerializationContext(), val)))
+                        new = serialization.from_state_dict(st, Path("/"))
+                        if route == "state+mix":
+                            if new["b"][1] is not new["a"]:
+                                mon("structure:sharing", f"{label}: the same configuration listed twice in a state dictionary came back as two objects", {"entry": "routes"})
+                            for k, w in compare_reloaded(rootobj, new["b"][0]):
+                                mon(classify_reload_diff(k), f"{label} (fresh graph written next to a loaded one): {w}", {"entry": "routes"})
+                            new = new["a"]
+                        cur = new
+                    else:
+                        sd = Path(tempfile.mkdtemp(prefix="gen-", dir=str(datadir.parent)))
+                        dirs.append(sd)
+                        serialization.save(cur, sd)
+                        cur = new = serialization.load(sd)
+                except (Exception, RecursionError) as e:
+                    mon("reload-raises:" + err_kind(e), f"{label} raised {type(e).__name__}: {str(e)[:200]}", {"entry": "routes"})
+                    break
+
+                def data_same(x, y, at):
+                    if not Path(y).is_file() or Path(y).read_bytes() != Path(x).read_bytes():
+                        raise Differ("data", f"{at}: the file restored for {canon.path(str(x))} does not hold its content")
+                diffs = compare_reloaded(rootobj, new, data_eq=data_same)
+                for k, w in diffs:
+                    mon("save-data-collision" if k == "data" else classify_reload_diff(k), f"{label}: {w}", {"entry": "routes"})
+                nid = new.__xpm__.full_identifier.all.hex()
+                if nid != orig_id and not diffs:
+                    mon("identifier-differs", f"{label}: structurally identical but the recomputed identifier {nid[:12]}… differs from {orig_id[:12]}…",
+                        {"entry": "routes"})
+                if diffs:
+                    break
+            rec["stats"]["routes"] = str(len(routes))
+        finally:
+            for d in dirs:
+                shutil.rmtree(d, ignore_errors=True)
+
     # --- entry point 4: params.json -> the job process side (run.py::run in this process): what the task code observes
     if case.get("job"):
         from experimaestro.xpmutils import DirectoryContext
